@@ -218,11 +218,14 @@ func init() {
 		},
 	})
 	register(&PropConfig{
-		ID:       "C18",
-		Probes:   []string{"jsonrpc2.stream.Write#probe"},
-		Replay:   replayC18,
-		Level:    "other",
-		Packages: []string{"./lsp/jsonrpc2"},
+		ID:     "C18",
+		Probes: []string{"jsonrpc2.stream.Write#probe"},
+		// what encoding/json and the (Un)MarshalJSON methods of the message types do to a message is outside the
+		// contracts (the frame contracts are over the marshalled bytes): the round-trip oracle runs in the quick tier too
+		QuickProbes: []string{"jsonrpc2.stream.Write#probe"},
+		Replay:      replayC18,
+		Level:       "other",
+		Packages:    []string{"./lsp/jsonrpc2"},
 		Assume: []string{
 			"partial claim: framing obligations and call matching (rely/guarantee over the channel and lock invariants). Not decided by this technique: losslessness of json.Marshal/DecodeMessage, uniqueness of ids among pending calls (the atomic counter is read as an arbitrary value), cancellation timing, absence of hangs and deadlocks (schedules and liveness); blocking of channel operations is not modelled",
 			"the ghost tag of a channel is chosen when the channel is initialised while fresh (made by this activation); channels are modelled by their identity only (no buffer contents, no blocking)",
